@@ -63,6 +63,7 @@ func checkC03(c *Ctx) {
 		c.reachCountRule(p, "C03.keycheck", "the decoded vector is normalised (coefficients reduced below q) before it is re-packed for the comparison", upk, map[string]int{"(*" + ip + ".Vec).Normalize": 1})
 		c.orderRule(p, "C03.keycheck", "the normalisation precedes the re-packing (a comparison made on the raw 12-bit values compares the input with itself)", upk,
 			"call that normalises the vector", p.isCallReaching(2, "(*"+ip+".Vec).Normalize"), "re-packing of the vector", p.isCallTo(-1, nil, "(*"+ip+".Vec).Pack"))
+		c.rejectReasonsRule(p, "C03.keycheck", reasonSpec{pkg: ip, typ: "PublicKey", name: "UnpackMLKEM", why: "FIPS 203 7.2: the modulus check", callees: []string{"bytes.Equal"}})
 		mpk := p.Func(ml, "PublicKey", "Unpack")
 		c.guard(p, "C03.keycheck", "public key parsing succeeds only through the modulus check", mpk, GuardSpec{Assumes: []Assume{calleeAssume(latNonNil, -1, "(*"+pp+".PublicKey).UnpackMLKEM")}})
 		c.lenReject(p, "C03.keycheck", mpk, "buf", true)
